@@ -3,7 +3,7 @@
    the write path fails too and writes nothing.
    Statements only; the proofs are in Proofs/RewriteFacts.v. *)
 From Coq Require Import List Bool NArith Arith Permutation.
-From BV Require Import Lib.PyStr Gen.Tables Model.Rewrite Proofs.RewriteFacts.
+From BV Require Import Lib.PyStr Gen.Tables Model.Rewrite Proofs.RewriteFacts Proofs.EagerFacts.
 Import ListNotations.
 
 Theorem C13_dry_ok_real_ok : forall fs changed items sorted_items l, Permutation items sorted_items -> NoDup (map fst items) ->
